@@ -97,7 +97,9 @@ def native_build(verif, repo, h, bounds, scratch, sanitize=True):
     def cc(job):
         m, src = job
         o = os.path.join(d, m + '_' + os.path.basename(src) + '.o')
-        cmd = base + lower.MODULE_DEFS.get(m, []) + inc + tuflags + ['-c', src, '-o', o]
+        # per-function sections: with --gc-sections, functions nobody reaches (and their references to globals of
+        # main files that are not linked, e.g. interrogate.cxx's `parser`) are dropped instead of failing the link
+        cmd = base + lower.MODULE_DEFS.get(m, []) + inc + tuflags + ['-ffunction-sections', '-fdata-sections', '-c', src, '-o', o]
         rc, out = run(cmd)
         if rc != 0:
             return None, out
@@ -137,6 +139,17 @@ def native_build(verif, repo, h, bounds, scratch, sanitize=True):
 def confirm(verif, repo, h, r, f, replay_path, scratch):
     """returns dict(confirmed=bool, detail=str)"""
     mode = h.get('replay', 'native')
+    if mode == 'script':
+        # the harness replaces environment the sandbox really has (e.g. write faults): a script runs the REAL
+        # binaries built from the repository under test on the corresponding concrete faults
+        cmd = [os.path.join(verif, 'harness', h['confirm_script']), repo, scratch] + list(h.get('confirm_args', []))
+        p = subprocess.run(cmd, stdout=subprocess.PIPE, stderr=subprocess.STDOUT, text=True)
+        doc = json.load(open(replay_path))
+        doc['real_binary_replay'] = dict(cmd=' '.join(cmd), rc=p.returncode, output=p.stdout[-1500:])
+        json.dump(doc, open(replay_path, 'w'), indent=1)
+        if p.returncode == 1:
+            return dict(confirmed=True, mode='real-binary', detail=p.stdout[-400:].replace('\n', ' | '))
+        return dict(confirmed=False, mode='real-binary', detail='rc=%d %s' % (p.returncode, p.stdout[-400:].replace('\n', ' | ')))
     if mode == 'model':
         # the harness drives environment models that have no native counterpart (documented per harness);
         # the counterexample is an execution of the encoded program only
